@@ -2,6 +2,7 @@ package checks
 
 import (
 	"fmt"
+	"github.com/bartventer/httpcache/store/driver"
 	"net/http"
 	"strings"
 	"time"
@@ -85,3 +86,5 @@ func obsClass(o *world.Obs) string {
 	}
 	return fmt.Sprintf("%d/%s/calls%d", o.Status, o.CacheStatus, len(o.Calls))
 }
+
+func errNotExist() error { return driver.ErrNotExist }
